@@ -306,13 +306,6 @@ def outcomeOf (r : Except Err JobOut) (ks : List Consumer) : Outcome :=
 `collection_name`, which the textual substitution of the bank would also hit -/
 def TypeClean (d : Decl) : Prop := hasWord paramName d.container = false
 
-/-- defect exclusion (known finding "element_pointer"): the declared element kind is the
-backend's default one (the CMS branches accept `element_pointer` and ignore it) -/
-def KindDefault (b : Backend) (md : Md) : Prop :=
-  match md.get? (t!"element_pointer") with
-  | some v => v.truthy = b.elemPtrDefault
-  | none => True
-
 /-- defect exclusion (known finding "cms singleton"): the CMS branches build a collection
 whatever `contains_collection` says -/
 def CmsIsCollection (b : Backend) (md : Md) : Prop :=
@@ -330,8 +323,6 @@ def NameClean (n : Text) : Prop := endsInDigit (lowerText n) = false
 def keysDistinct (md : Md) : Prop := (md.fields.map (·.1)).Nodup ∧ t!"metadata_type" ∉ md.fields.map (·.1)
 
 instance (d : Decl) : Decidable (TypeClean d) := by unfold TypeClean; exact inferInstance
-instance (b : Backend) (md : Md) : Decidable (KindDefault b md) := by
-  unfold KindDefault; cases md.get? (t!"element_pointer") <;> exact inferInstance
 instance (b : Backend) (md : Md) : Decidable (CmsIsCollection b md) := by unfold CmsIsCollection; exact inferInstance
 instance (n : Text) : Decidable (NameClean n) := by unfold NameClean; exact inferInstance
 instance (md : Md) : Decidable (keysDistinct md) := by unfold keysDistinct; exact inferInstance
